@@ -86,6 +86,23 @@ Eval(e, s) ==
                            \cup (IF rk >= kk THEN {"Info_WitnessBeyondCandidates"} ELSE {})
                            \cup (IF rk >= 100 THEN {"Info_WitnessBeyond100Nearest"} ELSE {}),
                   st |-> s]
+    [] e.a = "SuiteFind" ->          \* recorded from a repository test: witness-based clauses on Fx data
+         IF ~SuiteFindWF(e) THEN [cl |-> [SuiteWellFormed |-> FALSE], info |-> {}, st |-> s]
+         ELSE [cl |-> [SuiteWellFormed |-> TRUE,
+                       FoundCellContainsPoint |-> SuiteFoundCellContainsPoint(e),
+                       BoundaryPointsAreFound |-> SuiteBoundaryPointsAreFound(e)]
+                      @@ (IF e.lamall # <<>> THEN [RaisesOutside |-> SuiteRaisesOutside(e)] ELSE <<>>),
+               info |-> {"Info_SuiteFind_" \o e.kind} \cup (IF e.err = "" THEN {"Info_Found"} ELSE {"Info_Raised"}),
+               st |-> s]
+    [] e.a = "SuiteProbe" ->
+         IF ~SuiteProbeWF(e) THEN [cl |-> [SuiteWellFormed |-> FALSE], info |-> {}, st |-> s]
+         ELSE [cl |-> [SuiteWellFormed |-> TRUE,
+                       FoundCellContainsPoint |-> \A n \in DOMAIN e.lam : CellInsideFx(e.lam[n]),
+                       ProbeRows |-> SuiteProbeRows(e),
+                       LocalExpansion |-> SuiteLocalExpansion(e)]
+                      @@ (IF e.out # <<>> THEN [InterpolatorIsProbesTimesY |-> SuiteInterpolatorIsProbesTimesY(e)] ELSE <<>>),
+               info |-> {"Info_SuiteProbe_" \o e.op},
+               st |-> s]
     [] e.a = "Probe" ->
          IF ~s.ok \/ s.b = <<>> THEN [cl |-> <<>>, info |-> {"Info_Skipped"}, st |-> s]
          ELSE LET ct == ContainingAll(s.m, e.pts) IN
